@@ -33,8 +33,9 @@ SPEC = {
             "watchdog and safe-state updates / queued debug I/O writes (also ill-typed) / restart warm|cold / "
             "force_io / release_io (also ill-typed) / execution deadline in the past / clear_fault; one case in six "
             "ends by handing the runtime to a real ResourceRunner thread (deterministic gate clock, watchdog "
-            "enabled/disabled with a 1 ns or 1 h timeout) and compares the thread's whole event log, final state and "
-            "last_error; cases 0-6 are the hand-written corpus (witnesses of the repaired defect, the central "
+            "enabled/disabled with a 1 ns or 1 h timeout, one in three with a simulation controller whose post-cycle "
+            "step fails) and compares the thread's whole event log, final state and "
+            "last_error; cases 0-8 are the hand-written corpus (witnesses of the repaired defect, the central "
             "scenarios). non-trivial = a fault was raised and at least one later cycle request was refused, or the "
             "runner thread ended in Faulted; "
             "distinct = by hash of the case's operation lines",
@@ -56,8 +57,8 @@ SPEC = {
         "forced variables (DebugControl::force_global/...) and the health sink are not modelled (forced I/O values are); "
         "IoAddress.bit <= 7 as IoAddress::parse guarantees",
         "restart succeeds (its failure paths and what it does to variables are C09's subject)",
-        "the resource thread is modelled without pause/commands/restart signal; a post-cycle simulation error is "
-        "modelled as the code handles it (finding C08-runner-post-cycle) and excluded by the guard of the _partial theorems",
+        "the resource thread is modelled without pause/commands; the restart-request block is modelled as the code "
+        "handles it (finding C08-runner-restart-failure: a failing load ends the thread without apply_fault)",
         "shared-global synchronisation (tick_with_shared / SharedGlobals) is another actor and not part of a cycle request",
     ],
 }
@@ -78,9 +79,11 @@ MANIFEST = {
                   "size of its address and that no later entry overwrites reads back its value, every driver's last "
                   "received image is the final output image, and the deliveries precede the Fault report — with no "
                   "assumption on driver results or on the other entries), c08_policy_table, and for the resource thread "
-                  "c08_runner_{iter,loop,safe}_partial (the thread never cycles a faulted runtime, ends in Faulted with the "
-                  "fault latched and the safe image delivered) under the guard 'no post-cycle simulation error', with "
-                  "c08_counterexample_post_cycle showing the guard is needed (known finding, replayed each run). Each run replays generated "
+                  "c08_runner_{iter,loop,safe} (whatever the cycle, the post-cycle simulation step and the watchdog do, the "
+                  "thread never cycles a faulted runtime and ends in Faulted with the fault latched and, under a safe-state "
+                  "decision, the safe image delivered first); the restart-request block only as "
+                  "c08_runner_restart_signal_partial with c08_counterexample_restart_load (open finding, replayed each run). "
+                  "Each run replays generated "
                   "fault histories on the real Runtime (compiled from ST source by the real compiler) and on the model and "
                   "compares every observable after every operation.",
     "level_note": "Trusted: Lean kernel + propext/Quot.sound/Classical.choice; the hand-written model (validated only by "
@@ -88,9 +91,14 @@ MANIFEST = {
                   "<= 4 programs). Only tested, not proved: the concrete statement language / scheduler / coercions used to "
                   "replay cases (the theorems do not depend on them). Not modelled: pause/commands/restart signal and the "
                   "simulation controller of the resource thread (only the result of apply_post_cycle), forced variables, "
-                  "the health sink, SharedGlobals synchronisation; hierarchical addresses never reach a driver (C07). Open "
-                  "finding C08-runner-post-cycle: a post-cycle simulation error ends the thread in Faulted without "
-                  "apply_fault (no latch, no safe state). The defect of "
+                  "the health sink, SharedGlobals synchronisation; hierarchical addresses never reach a driver (C07). "
+                  "Finding C08-runner-post-cycle is repaired in /repo (560796d); its witness (--probe postcycle, corpus cases "
+                  "7-8) is a regression case. Remaining same-shape bypasses in scheduler.rs, which end the thread in "
+                  "ResourceState::Faulted without apply_fault (no latch, no Fault event, no safe state under safe_halt): a "
+                  "restart request whose restart()/load_retain_store() fails (open finding C08-runner-restart-failure, "
+                  "replayed by --probe restartload; the same lines serve a failing restart under policy/action 'restart', "
+                  "where no safe state is requested anyway) and SharedGlobals sync errors (observation only: "
+                  "sync_into_locked / sync_from_locked cannot fail for names created by from_runtime). The defect of "
                   "DESIGN.md §7 #8 (safe state stopped at the first failing address/driver) is repaired in /repo (9aab78e); "
                   "its witnesses are cases 0 and 1 of the corpus.",
 }
@@ -167,7 +175,7 @@ def oracle_case(case):
                     bad.append("thread Faulted without last_error")
                 elif e != "ResourceFaulted":
                     if not evs or evs[-1] != "F:" + e:
-                        bad.append("thread went on after the fault it reported")
+                        bad.append("thread reported a fault that is not the last event (not latched through apply_fault, or it went on)")
                     applies = (wd in ("halt", "safe")) if e == "WatchdogTimeout" else (policy == "safe")
                     if applies:
                         imgs = [ev.split(":", 1)[1] for ev in evs[-1 - ndrv:-1] if ev.startswith("w")]
@@ -228,23 +236,33 @@ def oracle_case(case):
         prev = d
 
 
-FINDING_POST_CYCLE = "runner-post-cycle:thread-Faulted-without-fault-decision"
+# Witness replays on the real ResourceRunner (vharness c08 --probe <kind>): kind -> (signature, clause).
+# A reproduction is a KNOWN-FINDING only while known_findings.json lists the signature as "open";
+# for a repaired finding ("fixed") the witness is a regression case and a reproduction is a VIOLATION.
+PROBES = {
+    "postcycle": ("runner-post-cycle:thread-Faulted-without-fault-decision",
+                  "post-cycle simulation error: thread ended Faulted under safe_halt without latching the fault "
+                  "or delivering the safe image"),
+    "restartload": ("runner-restart-failure:thread-Faulted-without-fault-decision",
+                    "failed restart request (load_retain_store error): thread ended Faulted under safe_halt "
+                    "without latching the fault or delivering the safe image"),
+}
 
 
-def probe_post_cycle():
-    """Replay the witness of finding C08-runner-post-cycle on the real ResourceRunner.
-    Returns (reproduces, line)."""
+def run_probe(kind):
+    """Returns (reproduces, line); reproduces is None when the probe could not be run."""
     import vlib  # noqa: PLC0415
     try:
-        rc, log = vlib.sh([vlib.VHARNESS, "c08", "--probe", "postcycle"], cwd=vlib.WORK, timeout=300)
-    except Exception as e:  # a starved machine must not turn the replay of a known finding into a failure
-        return None, f"probe did not finish: {e}"
-    line = next((l for l in log.splitlines() if l.startswith("probe postcycle ")), None)
+        rc, log = vlib.sh([vlib.VHARNESS, "c08", "--probe", kind], cwd=vlib.WORK, timeout=300)
+    except Exception as e:  # a starved machine must not turn a witness replay into a failure
+        return None, f"probe {kind} did not finish: {e}"
+    line = next((l for l in log.splitlines() if l.startswith(f"probe {kind} ")), None)
     if rc != 0 or line is None:
-        return None, log[-400:]
+        return None, f"probe {kind} did not run: " + log[-300:]
     d = dict(tok.split("=", 1) for tok in line.split()[2:])
     evs = [] if d["ev"] == "-" else d["ev"].split(",")
-    delivered = any(ev.startswith("F:") for ev in evs) and any(ev.startswith("w0:a5") for ev in evs)
+    # setup of every probe: safe_halt, safe state %QB0 := 16#A5, one driver
+    delivered = (len(evs) >= 2 and evs[-1].startswith("F:") and evs[-2].startswith("w0:a5"))
     return (d["state"] == "Faulted" and not delivered), line
 
 
@@ -252,16 +270,16 @@ def extra(ctx):
     failures, fails = [], []
     known = []
     import vlib  # noqa: PLC0415
-    repro, line = probe_post_cycle()
-    listed = [f for f in vlib.known_findings("C08") if f.get("match") == FINDING_POST_CYCLE]
-    if repro is None:
-        line = "post-cycle probe did not run: " + str(line)
-    elif repro and listed:
-        known.append(listed[0]["what"])
-    elif repro:
-        failures.append({"case": "probe-postcycle", "op": "ResourceRunner with a failing simulation coupling",
-                         "impl": line, "clause": "thread ended Faulted under safe_halt without latching the fault "
-                         "or delivering the safe image", "seed": ctx["seed"], "tier": ctx["tier"]})
+    probe_lines = {}
+    for kind, (signature, clause) in PROBES.items():
+        repro, line = run_probe(kind)
+        probe_lines[kind] = line
+        listed = [f for f in vlib.known_findings("C08") if f.get("match") == signature]
+        if repro and listed:
+            known.append(listed[0]["what"])
+        elif repro:
+            failures.append({"case": "probe-" + kind, "op": "ResourceRunner witness replay " + kind,
+                             "impl": line, "clause": clause, "seed": ctx["seed"], "tier": ctx["tier"]})
     for c in ctx["cases"]:
         for k, op, impl, clause in oracle_case(c):
             failures.append({"case": c.n, "op_index": k, "op": op, "impl": impl, "clause": clause,
@@ -278,7 +296,7 @@ def extra(ctx):
         if missing:
             fails.append("generator coverage hole (tie too weak to trust): no case exercised " + ", ".join(missing))
     return {"oracle_failures": failures, "failures": fails, "known": known,
-            "coverage": {"post_cycle_probe": line,
+            "coverage": {"runner_probes": probe_lines,
                          "oracle": "property clauses evaluated on the impl lines of every case (checks/c08.py oracle_case)",
                          "policy_rows_exercised": {r: stats.get(r, 0) for r in rows}}}
 
@@ -286,8 +304,8 @@ def extra(ctx):
 def replay(obj):
     """./check.py C08 --replay replays/C08-….json : re-run exactly that case (model diff + oracle)."""
     import check  # noqa: PLC0415
-    if obj.get("case") == "probe-postcycle":
-        repro, line = probe_post_cycle()
+    if str(obj.get("case", "")).startswith("probe-"):
+        repro, line = run_probe(obj["case"][len("probe-"):])
         print(line)
         print("replay:", "still fails" if repro else "passes")
         return 1 if repro else 0
